@@ -1041,7 +1041,20 @@ theorem parseJava_printJava (scale : ScaleFn) (d : JavaDoc) (h : d.wf = true) :
   rw [javaLocLoop_locs d.locs hlocwf]
   simp only [expectedJava, JavaDoc.hdrState]
   have hheap : d.header.heap = d.heap := by unfold JavaDoc.header; cases d.heap <;> rfl
-  congr 2
-  rw [← hheap]
+  have hhdr : (⟨d.header.sampleType, d.header.periodType, d.header.period, d.header.durationNanos, d.heap⟩ : JavaHeader)
+      = d.header := by
+    rw [← hheap]
+  simp only [hhdr]
+  have hchk : checkSampleTypes (javaAssemble d.header
+      (List.map (fun r => javaSample scale d.heap d.header.period r.first r.second r.addrs) d.recs)
+      (List.map JavaLoc.info d.locs)) = true := by
+    have hst : d.header.sampleType.length = 2 := by unfold JavaDoc.header; cases d.heap <;> rfl
+    simp only [checkSampleTypes, javaAssemble, hst, List.all_map, Bool.and_eq_true, List.all_eq_true]
+    refine ⟨by simp, ?_⟩
+    intro r _
+    unfold javaSample
+    cases d.heap <;> simp
+    split <;> simp
+  simp only [hchk, if_true]
 
 end PV.Legacy
